@@ -151,6 +151,10 @@ class EdgeLandmark(BaseEdge):
         # https://docs.ros.org/en/kinetic/api/rtabmap/html/OptimizerG2O_8cpp_source.html
         # fmt: off
         if isinstance(self.vertices[0].pose, PoseSE2):
+            # 2-D landmark edges in g2o don't support an offset, so an edge with a non-identity offset cannot be written
+            if np.any(self.offset.to_array() != 0.0):
+                raise NotImplementedError
+
             return "EDGE_SE2_XY {} {} {} {} ".format(self.vertex_ids[0], self.vertex_ids[1], self.estimate[0], self.estimate[1]) + " ".join([str(x) for x in self.information[np.triu_indices(2, 0)]]) + "\n"
 
         if isinstance(self.vertices[0].pose, PoseSE3):
